@@ -10,10 +10,18 @@ from . import tlc
 from .tlc import MachineryError
 
 VERIF = os.path.dirname(os.path.dirname(os.path.abspath(__file__)))
-EVIDENCE_DIR = os.path.join(VERIF, "evidence")
+EVIDENCE_DIR = os.environ.get("VERIF_EVIDENCE_DIR") or os.path.join(VERIF, "evidence")
 REPLAY_DIR = os.path.join(EVIDENCE_DIR, "replays")
 KNOWN_FILE = os.path.join(VERIF, "known_findings.jsonl")
 NCPU = min(16, os.cpu_count() or 4)
+
+
+def dbg(*a):
+    if os.environ.get("VERIF_DEBUG"):
+        print("[dbg %.1f]" % (time.time() - _T0), *a, file=sys.stderr, flush=True)
+
+
+_T0 = time.time()
 
 
 def seed():
